@@ -19,7 +19,7 @@ import (
 func TestVerifC10(t *testing.T) {
 	vfMain(t, vfCheck{
 		ID: "C10", Level: "exploration",
-		Rule:        "forward: every request type x generated paths (empty, relative, dot and dot-dot runs that try to climb above the root, repeated and trailing slashes, non-UTF-8, NUL, long) x start directories {/, /a, /a/b/, relative-looking, with ..} x optional-interface combinations {none, OpenFile, PosixRename+StatVFS, Lstat+RealPath+Readlink, legacy RealPath}: the recording handlers must see exactly one call with the method, flags, attribute bytes and the expected clean absolute path(s). Backward: a table of ~40 error values (fxerr codes, io.EOF, os.ErrNotExist, os.ErrPermission, ENOENT/EACCES/EPERM bare and inside *os.PathError/*os.LinkError/*os.SyscallError, other errors) returned from every handler entry point and from handler objects' ReadAt/WriteAt/ListAt vs the status code and text on the wire. A class is (request type, interface set, path shape) resp. (entry point, error value).",
+		Rule:        "forward: every request type x generated paths (empty, relative, dot and dot-dot runs that try to climb above the root, repeated and trailing slashes, non-UTF-8, NUL, long) x start directories {/, /a, /a/b/, relative-looking, with ..} x optional-interface combinations {none, OpenFile, PosixRename+StatVFS, Lstat+RealPath+Readlink, legacy RealPath}: the recording handlers must see exactly one call with the method, flags, attribute bytes and the expected clean absolute path(s). Backward: a table of ~40 error values (fxerr codes, io.EOF, os.ErrNotExist, os.ErrPermission, ENOENT/EACCES/EPERM, each bare and inside *os.PathError/*os.LinkError/*os.SyscallError, other errors) returned from every handler entry point and from handler objects' ReadAt/WriteAt/ListAt vs the status code and text on the wire. A class is (request type, interface set, path shape) resp. (entry point, error value).",
 		Assumptions: []string{"path oracle: path.IsAbs(q) && path.Clean(q)==q && q == (IsAbs(p) ? Clean(p) : Join(cleanStart,p)), written with package path only", "error text compared on the wire"},
 		Units: func(tier vfTier, seed uint64) int {
 			if tier == vfThorough {
@@ -293,7 +293,7 @@ func c10Errors() []c10Err {
 	wrap("os.ErrPermission", os.ErrPermission, rfPermDenied)
 	wrap("syscall.EACCES", syscall.EACCES, rfPermDenied)
 	wrap("syscall.EPERM", syscall.EPERM, rfPermDenied)
-	out = append(out, c10Err{"io.EOF", io.EOF, rfEOF, ""})
+	wrap("io.EOF", io.EOF, rfEOF) // bare and inside os's wrappers (a handler reporting the end of a file as a *PathError)
 	for i, e := range []error{errors.New("plain failure text 4711"), c10Custom{"custom error type #42"}, syscall.ENOTDIR, syscall.EEXIST, &os.PathError{Op: "x", Path: "/q", Err: syscall.EISDIR}, fmt.Errorf("wrapped: %w", errors.New("inner cause 9"))} {
 		out = append(out, c10Err{fmt.Sprintf("other-%d", i), e, rfFailure, e.Error()})
 	}
